@@ -18,17 +18,19 @@ PLAN = {
     "C03": {"runs": [(S, "nopressure", 320, 8000, []), (S, "ttl", 80, 2000, [])]},
     "C04": {"runs": [(S, "mixed", 240, 6000, []), (S, "ttl", 120, 3000, []), (S, "burst", 120, 3000, [])]},
     "C05": {"runs": [(S, "burst", 240, 6000, []), (S, "pressure", 160, 4000, []), (S, "mixed", 80, 2000, [])]},
-    "C06": {"runs": [(S, "pressure", 400, 10000, []), (S, "reads", 80, 2000, [])]},
+    "C06": {"runs": [("pure", "tables", 1, 1, []), (S, "pressure", 400, 10000, []), (S, "reads", 80, 2000, [])]},
     "C07": {"runs": [(S, "ttl", 240, 6000, []), (S, "mixed", 160, 4000, []), (S, "burst", 80, 2000, [])]},
-    "C08": {"runs": [(S, "ttl", 240, 6000, []), (S, "mixed", 240, 6000, [])]},
+    "C08": {"runs": [("pure", "tables", 1, 1, []), (S, "ttl", 240, 6000, []), (S, "mixed", 240, 6000, [])]},
     "C09": {"runs": [(S, "ttl", 400, 10000, []), (S, "mixed", 80, 2000, [])]},
     "C10": {"runs": [(S, "ttl", 400, 10000, []), (S, "pressure", 80, 2000, [])]},
     "C11": {"runs": [(S, "burst", 400, 10000, []), (S, "mixed", 80, 2000, [])]},
-    "C12": {"runs": [(S, "burst", 160, 4000, []), (S, "mixed", 80, 2000, [])]},
+    "C12": {"runs": [("ack", "polls", 2, 3, []), (S, "burst", 160, 4000, []), (S, "mixed", 80, 2000, [])],
+            "rule": "every interleaving of done() with the polls of 1-2 tasks on the real acknowledgement (schedule points inside done/poll), every schedule prefix compared with CachedModel/Ack.lean; plus Layer A histories with polls; non-trivial = a schedule in which a poll overlaps done()"},
     "C13": {"runs": [(S, "burst", 400, 10000, []), (S, "mixed", 80, 2000, [])]},
-    "C14": {"runs": [(S, "reads", 320, 8000, [])]},
+    "C14": {"runs": [("pure", "tables", 1, 1, []), (S, "reads", 320, 8000, [])],
+            "rule": "exhaustive tables: all 256 byte values x 3 neighbours x 7 positions for Row::increment_at/get_at/half/clear, next_power_2 around every power of two, FrequencyCounter / TinyLFU streams for 30 counter sizes; plus Layer A histories with the consumer; non-trivial = a case that exercises the sketch"},
     "C15": {"runs": [(S, "reads", 400, 10000, []), (S, "mixed", 80, 2000, [])]},
-    "C16": {"runs": [(S, "mixed", 240, 6000, []), (S, "reads", 120, 3000, []), (S, "pressure", 120, 3000, [])]},
+    "C16": {"runs": [("pure", "tables", 1, 1, []), (S, "mixed", 240, 6000, []), (S, "reads", 120, 3000, []), (S, "pressure", 120, 3000, [])]},
     "C17": {"runs": [(S, "boundary", 400, 10000, []), (S, "mixed", 80, 2000, [])]},
     "C18": {"runs": [(S, "burst", 240, 6000, []), (S, "mixed", 160, 4000, [])]},
 }
@@ -45,9 +47,9 @@ TRIGGERS = {
     "C09": _any(lambda s: s.kind in ("putttl", "putwttl") or (s.kind == "upsert" and s.toks[5] != "-")),
     "C10": _any(lambda s: s.kind == "sweep" and s.out.strip() != "swept ev="),
     "C11": _any(lambda s: s.kind == "worker"),
-    "C12": _any(lambda s: s.kind == "poll"),
+    "C12": _any(lambda s: s.kind == "poll" or (s.kind == "ack" and "lr:" in s.ev and ("ss" in s.ev.split() or "sf" in s.ev.split()))),
     "C13": _any(lambda s: s.kind == "shutdown"),
-    "C14": _any(lambda s: s.kind == "consumer"),
+    "C14": _any(lambda s: s.kind in ("consumer", "pure")),
     "C15": _any(lambda s: s.kind == "consumer" or "out:" in s.out),
     "C16": _any(lambda s: s.kind == "stats"),
     "C17": _any(lambda s: s.out.startswith("panic") or s.out.startswith("workerpanic") or s.kind in ("putwttl", "putttl")),
